@@ -51,5 +51,12 @@ theorem handlerFor_none {cfg : DumpCfg} (h : noHandlers cfg = true) (v : PyVal) 
   unfold handlerFor
   rcases lookup_noHandlers cfg.handlers v.typeName h with h' | h' <;> rw [h']
 
+/-- Python `e == "name"` holds for the string itself only (no modelled kind equals a string). -/
+theorem pyEq_str_iff (e : PyVal) (n : String) : pyEq e (.str n) = true ↔ e = .str n := by
+  cases e <;> simp [pyEq, numEq, asInt?]
+
+/-- `key in ignore_list` for an attribute name is membership of the string. -/
+theorem nameIgnored_iff (il : List PyVal) (n : String) : nameIgnored il n = true ↔ PyVal.str n ∈ il := by
+  simp [nameIgnored, List.any_eq_true, pyEq_str_iff]
 
 end JRV.JsonClass
